@@ -17,7 +17,8 @@ RULE = ("expression programs: grammar-generated (member chains over public / pri
         "literals, every operator, non-ASCII spellings of member names (compatibility forms of '_' and of letters, ignorable code "
         "points, case variants), every whitelisted builtin, every Python builtin name as a bare identifier, format-style string "
         "literals that name private fields) and mutations of the test-suite's expressions, evaluated over environments as "
-        "MatchIf/MatchUnless build them (tripwired sentinels standing for nodes, and plain containers holding sentinels); "
+        "MatchIf/MatchUnless build them (tripwired sentinels standing for nodes, plain containers holding sentinels, format strings "
+        "naming private fields); every parsed expression is evaluated three times in a row, over all three environments; "
         "non-trivial = the program parses and mentions an underscore name or a non-whitelisted builtin; distinct = distinct program")
 ASSUMPTIONS = ["evaluation exceptions are expected and ignored: only attribute reads and name resolutions are judged",
                "implicit special-method use by the interpreter (len(), iteration, operators) bypasses attribute lookup and is not a 'read'",
@@ -25,10 +26,10 @@ ASSUMPTIONS = ["evaluation exceptions are expected and ignored: only attribute r
                "ignorable-stripped form of it, or is one of the sentinel's own secret names (user-directed read); the interpreter's own "
                "probing of __origin__/__qualname__/... (GenericAlias repr) is counted, not judged",
                "documented whitelist = the list in the module docstring of graphtage/expressions.py, copied into this check"]
-MINIMUMS = {"quick": {"programs_evaluated": 40000, "programs_with_underscore_names": 20000, "identifiers_resolved": 30000,
+MINIMUMS = {"quick": {"re_evaluations_of_a_parsed_expression": 80000, "programs_evaluated": 40000, "programs_with_underscore_names": 20000, "identifiers_resolved": 30000,
                       "tripwire_armed_member_access": 8000, "format_calls_with_private_fields": 300,
                       "programs_with_non_ascii_spellings_of_names": 3000},
-            "thorough": {"programs_evaluated": 700000, "programs_with_underscore_names": 250000, "identifiers_resolved": 700000,
+            "thorough": {"re_evaluations_of_a_parsed_expression": 1400000, "programs_evaluated": 700000, "programs_with_underscore_names": 250000, "identifiers_resolved": 700000,
                          "tripwire_armed_member_access": 150000, "programs_with_non_ascii_spellings_of_names": 50000}}
 
 WHITELIST = ["abs", "all", "any", "ascii", "bin", "bool", "bytearray", "bytes", "chr", "complex", "dict", "enumerate", "filter",
@@ -171,6 +172,11 @@ def env(kind):
     s = S()
     if kind == "nodes":          # as MatchIf builds it: the two nodes themselves
         return {"from": s, "to": S()}
+    if kind == "formats":
+        # names bound to *format strings* that name private fields (a string node's value, as MatchUnless passes it) next to
+        # sentinels: `from.format(to)` has a str receiver here and a sentinel receiver in the other environments
+        return {"from": "{0._secret}{0.__class__}", "to": s, "s": "{0._secret}", "d": {"k": "{0._Sentinel__mangled}"},
+                "lst": ["{0.__dict__}", s], "n": 3, "t": s}
     # as MatchUnless builds it: plain values (here holding sentinels so that reads stay observable)
     return {"from": {"k": s, "n": 5, "t": "text"}, "to": [s, 1, "x"], "s": s, "d": {"k": s}, "lst": [s, s], "n": 3, "t": "abc{0._secret}"}
 
@@ -209,6 +215,11 @@ def atom(r, names):
 
 def expr(r, names, depth=0):
     x = r.random()
+    if x < 0.03:
+        # str.format / format_map reached through a *name* (whether the receiver is a string depends on the environment the
+        # expression is evaluated in, not on the program text)
+        recv = r.choice(names) if r.random() < 0.7 else f"{r.choice(names)}[{r.choice(['0', '1', chr(39) + 'k' + chr(39)])}]"
+        return f"{recv}.{r.choice(['format', 'format', 'format_map'])}({', '.join(r.choice(names) for _ in range(r.randint(1, 2)))})"
     if depth >= 4 or x < 0.22:
         return atom(r, names)
     if x < 0.50:      # member chain
@@ -324,21 +335,33 @@ def check(case, ctx):
         if ctx is not None:
             ctx.count("programs_rejected_by_parser")
         return []
-    e = env(case["env"])
+    # one parsed expression is evaluated for every pair of nodes a comparison looks at (main() parses --match-if / --match-unless
+    # once): the same Expression object is therefore evaluated several times here, over environments in which the same names are
+    # bound to objects of different kinds; reads are logged across all evaluations
+    kinds = [case["env"]] + [k for k in ("nodes", "values", "formats") if k != case["env"]]
     del LOG[:]
     _res["bad"] = []
     n0 = _res["n"]
-    ARMED[0] = True
-    try:
+    outcome = None
+    for kind in kinds:
+        e = env(kind)
+        ARMED[0] = True
         try:
-            parsed.eval(locals=e)
-            outcome = "value"
-        except core.CaseTimeout:
-            raise
-        except BaseException as ex:  # noqa  evaluation errors are expected; only reads count
-            outcome = type(ex).__name__
-    finally:
-        ARMED[0] = False
+            try:
+                parsed.eval(locals=e)
+                o = "value"
+            except core.CaseTimeout:
+                raise
+            except BaseException as ex:  # noqa  evaluation errors are expected; only reads count
+                o = type(ex).__name__
+        finally:
+            ARMED[0] = False
+        if outcome is None:
+            outcome = o
+        if ctx is not None:
+            ctx.count("evaluations")
+            if kind != kinds[0]:
+                ctx.count("re_evaluations_of_a_parsed_expression")
     judged = 0
     spellings = folded(prog) if not prog.isascii() else (prog,)
     for where, name, frame in LOG:
